@@ -24,8 +24,51 @@ impl<'a> Ctx<'a> {
     }
 }
 
+/// The header fields in front of the judged field take all their values as the frames run (flight status, downlink
+/// request, utility message of DF4/5/20/21; vertical status, sensitivity level, reply information of DF0/16), chosen
+/// by the frame's own hash; the parity is adjusted so that the frame still carries the same address. The value of the
+/// judged field does not depend on them.
+fn vary_header(f: &[u8]) -> Vec<u8> {
+    let mut g = f.to_vec();
+    if g.len() != 7 && g.len() != 14 {
+        return g;
+    }
+    let df = g[0] >> 3;
+    let h = crate::util::fnv(f);
+    let before = crate::oracle::crc::remainder(&g);
+    let mut bits = ((g[0] as u32) << 16) | ((g[1] as u32) << 8) | g[2] as u32; // bits 1..24
+    match df {
+        4 | 5 | 20 | 21 => {
+            // bits 6..19: FS(3) DR(5) UM(6)
+            let v = (h >> 7) as u32 & 0x3FFF;
+            bits = (bits & !(0x3FFF << 5)) | (v << 5);
+        }
+        0 | 16 => {
+            let vs = (h >> 7) as u32 & 1;
+            let sl = (h >> 8) as u32 & 7;
+            let ri = (h >> 11) as u32 & 15;
+            bits = (bits & !(1 << 18)) | (vs << 18);
+            bits = (bits & !(7 << 13)) | (sl << 13);
+            bits = (bits & !(15 << 7)) | (ri << 7);
+        }
+        _ => return g,
+    }
+    g[0] = (bits >> 16) as u8;
+    g[1] = (bits >> 8) as u8;
+    g[2] = bits as u8;
+    // the last 24 bits enter the remainder directly: give back what the header change took
+    let diff = crate::oracle::crc::remainder(&g) ^ before;
+    let n = g.len();
+    g[n - 3] ^= (diff >> 16) as u8;
+    g[n - 2] ^= (diff >> 8) as u8;
+    g[n - 1] ^= diff as u8;
+    g
+}
+
 fn decode(c: &mut Ctx, f: &[u8], field: &str) -> Option<Value> {
     c.r.evaluations += 1;
+    let varied = vary_header(f);
+    let f = varied.as_slice();
     // a feed also delivers cut frames: before one frame in four (chosen by its own hash, so that a replay agrees) the
     // decoder is offered a truncated, empty or over-long input; the fields of the frame must not depend on it
     let h = crate::util::fnv(f);
@@ -822,7 +865,7 @@ fn positioned_one(c: &mut Ctx, frames: &[Vec<u8>], stamps: &[f64], reference: Op
 }
 
 pub fn run(a: &Args, r: &mut Report) {
-    r.rule = "per field: every code of the field (or the stated stratified sample in quick) is encoded by the independent standards-based encoder, with plausible companions for Comm-B registers, decoded by the real Message::try_from and read back from serde_json::to_value; compared with the physical value within one quantisation step (exactly, for integer-valued fields). before one frame in four the decoder is offered a truncated, empty or over-long input; in addition histories of 2-7 position reports of one aircraft go through decode_positions and every field of every record (the position set aside) must still be the one decoded from the record's own frame. distinct_nontrivial = distinct (field, code) pairs that round-tripped".into();
+    r.rule = "per field: every code of the field (or the stated stratified sample in quick) is encoded by the independent standards-based encoder, with plausible companions for Comm-B registers, decoded by the real Message::try_from and read back from serde_json::to_value; compared with the physical value within one quantisation step (exactly, for integer-valued fields). the header fields in front of the judged field (flight status, downlink request, utility message; vertical status, sensitivity level, reply information) take all their values; before one frame in four the decoder is offered a truncated, empty or over-long input; in addition histories of 2-7 position reports of one aircraft go through decode_positions and every field of every record (the position set aside) must still be the one decoded from the record's own frame. distinct_nontrivial = distinct (field, code) pairs that round-tripped".into();
     r.assumptions.push("sentinel codes (0 = no information, 127 in the GNSS/baro difference, movement 0 / 125..127) are not judged".into());
     r.assumptions.push("Comm-B registers are judged inside the decoder's documented plausibility envelope only (roll <= 50 deg, GS <= 600 kt, TAS in [80,500], |GS-TAS| <= 200, IAS 1..500, Mach <= 1, |vrate| <= 6000 ft/min, consistent roll/turn-rate signs, IAS/Mach consistency)".into());
     r.assumptions.push("call signs: the decoder strips spaces; undefined 6-bit codes must give '#'".into());
